@@ -1,8 +1,10 @@
 /-!
 # Running shows (C17) — model of `RunningShow` in `mpf/assets/show.py` as driven by `show_player`
 
-Times are `Nat` (the correspondence uses 1 unit = 1/32 s), durations are per step in the same unit (`0` stands for
-Python's `-1`: hold for ever), speed is the fraction `spNum / spDen`, so a step lasts `dur * spDen / spNum`.
+Times are rational: `Nat` numerators over one common denominator chosen per run by the harness (so fine that every
+`dur * spDen / spNum` is an integer — the driver refuses anything else, `Lemmas/ShowExact.lean` proves that the schedule
+is then the exact rational one), durations are per step in the same unit (`0` stands for Python's `-1`: hold for ever),
+speed is the fraction `spNum / spDen`, so a step lasts `dur * spDen / spNum`.
 A live `call_at` timer is an element of `timers`; `handle` is `_delay_handler` (the one timer the show can cancel).
 Observations: `eff idx t` (the effects of step `idx` are played with `start_time = t`), `ev e` (a show event is posted),
 `clr` (the show's context is cleared in the players it used).
@@ -34,6 +36,9 @@ structure RS where
   dirty : Bool := false               -- `_players` is non-empty: effects were played under the show's context
   now : Nat := 0
   known : Bool := false               -- the show player's instance dict has an entry for the show's key
+  pending : Bool := false             -- `sync_ms`: the live timer is the synchronised start (`_start_now`), no step ran yet
+  pauseAfter : Bool := false          -- `not start_running`, kept for `_start_now`
+  started : Bool := false             -- ghost: `_start_now` ran (it is what posts `events_when_played`)
   deriving DecidableEq, Repr
 
 /-- `duration / speed` of step `i` -/
@@ -78,8 +83,17 @@ def runNext (s : RS) (post : List Ev) (pauseAfter : Bool) : RS × List Obs :=
         (s1, o ++ (post ++ [Ev.completed]).map Obs.ev)
     else playStep s idx0.toNat post pauseAfter
 
+/-- `_start_play`: the index of the first step.  `start_step` is 1-based; a negative one counts from the end
+(Python's `%` with a positive modulus is Lean's `Int.emod`); `0`/`None` is the first step; a value beyond the end is kept
+and treated by `_run_next_step` as "at the end of the show" (a loop is consumed, or the show completes at once). -/
+def startIdx (start : Int) (total : Nat) : Int :=
+  if start > 0 then start - 1 else if start < 0 then start % (total : Int) else 0
+
+/-- `sync_ms`: `next_step_time += sync - next_step_time % sync` — the first multiple of `sync` strictly after `t` -/
+def syncTime (sync t : Nat) : Nat := t + sync - t % sync
+
 inductive Op
-  | play (durs : List Nat) (num den : Nat) (loops : Option Nat) (start : Nat) (running manual : Bool) (t : Nat)
+  | play (durs : List Nat) (num den : Nat) (loops : Option Nat) (start : Int) (running manual : Bool) (sync : Nat) (t : Nat)
   | stop (t : Nat)
   | pause (t : Nat)
   | resume (t : Nat)
@@ -88,6 +102,31 @@ inductive Op
   | speed (num den t : Nat)
   | fire (t : Nat)          -- the handle's timer runs at clock time `t` (≥ its deadline: the loop may be late)
   deriving Repr
+
+/-- `_start_play` of a fresh instance `s0` (its `nextTime` is the start time handed in): run the first step now, or —
+with `sync_ms` — arm the start timer at the next multiple of `sync` -/
+def startPlay (s0 : RS) (running : Bool) (sync : Nat) : RS × List Obs :=
+  if sync = 0 then runNext { s0 with started := true } [.played] (!running)
+  else
+    let T := syncTime sync s0.nextTime
+    ({ s0 with nextTime := T, pending := true, pauseAfter := !running, timers := s0.timers ++ [(s0.nextId, T)],
+               handle := some s0.nextId, nextId := s0.nextId + 1 }, [])
+
+/-- what the show's timer runs: the synchronised start (`_start_now`) or an ordinary step (`_run_next_step`) -/
+def timerBody (s : RS) : RS × List Obs :=
+  if s.stopped then (s, [])      -- (`_start_now` / `_run_next_step` of a stopped show return at once)
+  else if s.pending then runNext { s with pending := false, started := true } [.played] s.pauseAfter
+  else runNext s [] false
+
+/-- `resume()` / `advance()` / `step_back()` after `_remove_delay_handler()`: the next step runs now.  A show that still
+waits for its synchronised start is *started* now instead (`_start_if_waiting`: `played` is posted, the start step
+runs, the request's own event is not posted) — the repair of the defect that such a request played steps of a show that
+had never started. -/
+def reqBody (s1 : RS) (ev : Ev) (back : Bool) : RS × List Obs :=
+  if s1.stopped then (s1, [])
+  else if s1.pending then
+    runNext { s1 with nextTime := s1.now, pending := false, started := true } [.played] s1.pauseAfter
+  else runNext { s1 with nextTime := s1.now, nextIdx := if back then s1.nextIdx - 2 else s1.nextIdx } [ev] false
 
 def setNow (s : RS) (t : Nat) : RS := { s with now := max s.now t }
 
@@ -105,26 +144,21 @@ def ctl (s : RS) (t : Nat) (f : RS → RS × List Obs) : RS × List Obs :=
   if s.known then f (setNow s t) else (setNow s t, [])
 
 def step (s : RS) : Op → RS × List Obs
-  | .play durs num den loops start running manual t =>
+  | .play durs num den loops start running manual sync t =>
     -- `replace_or_advance_show`: a previous instance that still runs is stopped, then a new RunningShow starts
-    -- (`_start_play` without sync, start_step ≥ 1)
+    -- (`_start_play`).  With `sync_ms` the start is a timer at the next multiple of `sync` (the driver refuses a
+    -- synchronised play over an instance that still runs: its stop would be deferred to the start, outside this model).
     let (sOld, o) := stop (setNow s t)
     let s0 : RS := { durs := durs, spNum := num, spDen := den, loops := loops, manual := manual,
-                     nextIdx := (start : Int) - 1, nextTime := sOld.now, stopped := false, now := sOld.now,
+                     nextIdx := startIdx start durs.length, nextTime := sOld.now, stopped := false, now := sOld.now,
                      nextId := sOld.nextId, timers := sOld.timers, known := true }
-    let (s1, o1) := runNext s0 [.played] (!running)
+    let (s1, o1) := startPlay s0 running sync
     (s1, o ++ o1)
   | .stop t => ctl s t (fun s => let (s1, o) := stop s; ({ s1 with known := false }, o))
   | .pause t => ctl s t (fun s => (cancelHandle s, [Obs.ev .paused]))
-  | .resume t => ctl s t (fun s =>
-    let s1 := cancelHandle s
-    runNext { s1 with nextTime := s1.now } [.resumed] false)
-  | .advance t => ctl s t (fun s =>
-    let s1 := cancelHandle s
-    runNext { s1 with nextTime := s1.now } [.advanced] false)
-  | .back t => ctl s t (fun s =>
-    let s1 := cancelHandle s
-    runNext { s1 with nextTime := s1.now, nextIdx := s1.nextIdx - 2 } [.steppedBack] false)
+  | .resume t => ctl s t (fun s => reqBody (cancelHandle s) .resumed false)
+  | .advance t => ctl s t (fun s => reqBody (cancelHandle s) .advanced false)
+  | .back t => ctl s t (fun s => reqBody (cancelHandle s) .steppedBack true)
   | .speed num den t => ctl s t (fun s => ({ s with spNum := num, spDen := den }, []))
   | .fire t =>
     let s1 := setNow s t
@@ -132,7 +166,7 @@ def step (s : RS) : Op → RS × List Obs
     | none => (s1, [])
     | some tm =>
       -- the timer is consumed; the show still remembers its (now dead) handle, as in Python
-      runNext { s1 with timers := s1.timers.filter (fun x => decide (x.1 ≠ tm.1)) } [] false
+      timerBody { s1 with timers := s1.timers.filter (fun x => decide (x.1 ≠ tm.1)) }
 
 def run (s : RS) : List Op → RS × List Obs
   | [] => (s, [])
@@ -156,20 +190,24 @@ def answer (r : RS × List Obs) : RS × String :=
   (r.1, "o" ++ String.join (r.2.map (fun o => " " ++ showObs o)) ++ " |" ++ toString r.1.timers.length ++
     (if r.1.stopped then " S" else " R"))
 
+/-- the time unit is fine enough for this speed: every `dur * den / num` is exact (no rounding in the model) -/
+def exactFor (durs : List Nat) (num den : Nat) : Bool := durs.all (fun d => d * den % num == 0)
+
 def allNat (ws : List String) : Option (List Nat) := ws.mapM (fun w => w.toNat?)
 
 def driverStep (s : RS) (line : String) : RS × String :=
   match line.splitOn " " with
   | "play" :: rest =>
-    -- play <num> <den> <loops|inf> <start> <running 0/1> <manual 0/1> <t> <d1> ... <dn>
+    -- play <num> <den> <loops|inf> <start (Int)> <running 0/1> <manual 0/1> <sync> <t> <d1> ... <dn>
     match rest with
-    | num :: den :: loops :: start :: running :: manual :: t :: ds =>
-      match allNat [num, den, start, running, manual, t], allNat ds,
-            (if loops = "inf" then some none else loops.toNat?.map some) with
-      | some [num, den, start, running, manual, t], some durs, some lp =>
-        if num = 0 ∨ durs.isEmpty ∨ start = 0 ∨ t < s.now then (s, "bad-op")
-        else answer (step s (.play durs num den lp start (running == 1) (manual == 1) t))
-      | _, _, _ => (s, "bad-op")
+    | num :: den :: loops :: start :: running :: manual :: sync :: t :: ds =>
+      match allNat [num, den, running, manual, sync, t], allNat ds,
+            (if loops = "inf" then some none else loops.toNat?.map some), start.toInt? with
+      | some [num, den, running, manual, sync, t], some durs, some lp, some start =>
+        -- times are numerators over a common denominator: the unit must be fine enough for `dur * den / num` to be exact
+        if num = 0 ∨ durs.isEmpty ∨ t < s.now ∨ !exactFor durs num den ∨ (sync ≠ 0 ∧ !s.stopped) then (s, "bad-op")
+        else answer (step s (.play durs num den lp start (running == 1) (manual == 1) sync t))
+      | _, _, _, _ => (s, "bad-op")
     | _ => (s, "bad-op")
   | [op, t] =>
     match t.toNat? with
@@ -189,7 +227,8 @@ def driverStep (s : RS) (line : String) : RS × String :=
       | _ => (s, "bad-op")
   | ["speed", num, den, t] =>
     match allNat [num, den, t] with
-    | some [num, den, t] => if num = 0 ∨ t < s.now then (s, "bad-op") else answer (step s (.speed num den t))
+    | some [num, den, t] =>
+      if num = 0 ∨ t < s.now ∨ (s.known ∧ !exactFor s.durs num den) then (s, "bad-op") else answer (step s (.speed num den t))
     | _ => (s, "bad-op")
   | ["reset"] => ({}, "ok")
   | _ => (s, "bad-op")
